@@ -520,21 +520,21 @@ func TestPropStringFunctions(t *testing.T) {
 			return string(b)
 		}
 		checks := map[string]Value{
-			"lower(" + q + ")":            asciiLower(s),
-			"upper(" + q + ")":            asciiUpper(s),
-			"length(" + q + ")":           uint64(len(s)),
-			"lengthUTF8(" + q + ")":       uint64(naiveUTF8Len(s)),
-			"hex(" + q + ")":              strings.ToUpper(hex.EncodeToString([]byte(s))),
-			"unhex(hex(" + q + "))":       s,
-			"concat(" + q + ", 'x')":      s + "x",
-			"empty(" + q + ")":            boolVal(s == ""),
-			"position(" + q + ", ':')":    uint64(strings.Index(s, ":") + 1),
-			"startsWith(" + q + ", 'ab')": boolVal(strings.HasPrefix(s, "ab")),
-			"endsWith(" + q + ", 'Z')":    boolVal(strings.HasSuffix(s, "Z")),
-			"reverse(reverse(" + q + "))": s,
+			"lower(" + q + ")":                 asciiLower(s),
+			"upper(" + q + ")":                 asciiUpper(s),
+			"length(" + q + ")":                uint64(len(s)),
+			"lengthUTF8(" + q + ")":            uint64(naiveUTF8Len(s)),
+			"hex(" + q + ")":                   strings.ToUpper(hex.EncodeToString([]byte(s))),
+			"unhex(hex(" + q + "))":            s,
+			"concat(" + q + ", 'x')":           s + "x",
+			"empty(" + q + ")":                 boolVal(s == ""),
+			"position(" + q + ", ':')":         uint64(strings.Index(s, ":") + 1),
+			"startsWith(" + q + ", 'ab')":      boolVal(strings.HasPrefix(s, "ab")),
+			"endsWith(" + q + ", 'Z')":         boolVal(strings.HasSuffix(s, "Z")),
+			"reverse(reverse(" + q + "))":      s,
 			"replaceAll(" + q + ", 'a', 'bb')": strings.ReplaceAll(s, "a", "bb"),
 			"replaceOne(" + q + ", 'a', 'bb')": strings.Replace(s, "a", "bb", 1),
-			"toString(" + q + ")":         s,
+			"toString(" + q + ")":              s,
 		}
 		for e, want := range checks {
 			if got := evalOne(t, db, "SELECT "+e); got != want {
@@ -670,20 +670,20 @@ func TestPropArrayFunctions(t *testing.T) {
 			}
 		}
 		checks := map[string]string{
-			"arraySort(" + lit + ")":                      arrVal(sorted),
-			"arrayReverseSort(" + lit + ")":               arrVal(desc),
-			"arraySort(x -> -x, " + lit + ")":             arrVal(desc),
-			"arrayReverse(" + lit + ")":                   arrVal(rev),
-			"arrayDistinct(" + lit + ")":                  arrVal(distinct),
-			"arraySum(" + lit + ")":                       strconv.Itoa(sum),
-			"length(" + lit + ")":                         strconv.Itoa(len(a)),
-			"arrayFilter(x -> x % 2 = 1, " + lit + ")":    arrVal(odd),
-			"arrayMap(x -> x * 2, " + lit + ")":           arrVal(doubled),
-			fmt.Sprintf("has(%s, %d)", lit, x):            strconv.Itoa(map[bool]int{false: 0, true: 1}[indexOf > 0]),
-			fmt.Sprintf("indexOf(%s, %d)", lit, x):        strconv.Itoa(indexOf),
+			"arraySort(" + lit + ")":                            arrVal(sorted),
+			"arrayReverseSort(" + lit + ")":                     arrVal(desc),
+			"arraySort(x -> -x, " + lit + ")":                   arrVal(desc),
+			"arrayReverse(" + lit + ")":                         arrVal(rev),
+			"arrayDistinct(" + lit + ")":                        arrVal(distinct),
+			"arraySum(" + lit + ")":                             strconv.Itoa(sum),
+			"length(" + lit + ")":                               strconv.Itoa(len(a)),
+			"arrayFilter(x -> x % 2 = 1, " + lit + ")":          arrVal(odd),
+			"arrayMap(x -> x * 2, " + lit + ")":                 arrVal(doubled),
+			fmt.Sprintf("has(%s, %d)", lit, x):                  strconv.Itoa(map[bool]int{false: 0, true: 1}[indexOf > 0]),
+			fmt.Sprintf("indexOf(%s, %d)", lit, x):              strconv.Itoa(indexOf),
 			fmt.Sprintf("arrayExists(v -> v = %d, %s)", x, lit): strconv.Itoa(map[bool]int{false: 0, true: 1}[indexOf > 0]),
-			"arrayConcat(" + lit + ", " + lit + ")":       arrVal(append(append([]int{}, a...), a...)),
-			"empty(" + lit + ")":                          strconv.Itoa(map[bool]int{false: 0, true: 1}[len(a) == 0]),
+			"arrayConcat(" + lit + ", " + lit + ")":             arrVal(append(append([]int{}, a...), a...)),
+			"empty(" + lit + ")":                                strconv.Itoa(map[bool]int{false: 0, true: 1}[len(a) == 0]),
 		}
 		for e, want := range checks {
 			if got := Format(evalOne(t, db, "SELECT "+e)); got != want {
